@@ -453,6 +453,7 @@ def nontrivial_kernel(line, ans):
     if k == "inl": return " m:" in ans
     if k == "lvnw": return True
     if k == "ivuse": return True
+    if k in ("dceuse", "dceloop"): return True
     if k == "algopt": return ans == "fired"
     if k == "lvn": return ans.count(" b ") + ans.startswith("b ") < line.count(" b ")
     if k == "dce": return line.count(" b ") > (0 if ans == "kept -" else ans.count(",") + 1)
@@ -1850,6 +1851,17 @@ def run(ctx):
     if nk:
         # deterministic: every position at which a nested loop may mention the outer counter
         lines += [f"ivuse {pos} {b}" for pos in ("none", "init", "loopvalue", "guard", "body", "print", "ip", "nt", "ix", "cs", "la", "st", "cl") for b in (3, 6)]
+        # DCE's use collector: the probed loop variable v1 is read in exactly ONE syntactic position (or none)
+        uses = {"callee": "ic v1 v2 1 v0 p v2", "arg": "cr v2 1 v1 p v2", "ctx": "cl v2 v1 ic v2 v3 1 v0 p v3", "field": "st v2 2 v1 i1 cr _ 1 v2",
+                "ptr": "ix v2 v1 0 p v2", "cast": "cs v2 v1 p v2", "isp": "ip v2 v1 p v2", "not": "nt v2 v1 p v2", "operand": "b v2 add v1 i1 p v2",
+                "brk": "k v1", "dead": "b v2 add v1 i1", "none": "p v0"}
+        for u_ in uses.values():
+            lines.append("dceloop " + u_)
+            lines.append("dceloop p v0 " + u_ + " p v0")
+        # straight-line: a definition used only in ONE position of a later statement (or not at all)
+        for u_ in uses.values():
+            lines.append("dceuse v0 b v1 add v0 i1 " + u_)
+            lines.append("dceuse v0 st v1 1 v0 " + u_)
         # closed-form loop elimination: every combination of its decline conditions x break value kinds x guard kinds
         for g_, i0_, st_, b_ in (("lt", 0, 1, 10), ("le", 3, 2, 9), ("gt", 5, -1, -4), ("ge", 0, -3, -9), ("lt", 0, 0, 5), ("lt", 9, 1, 2)):
             for lit_ in (1, 0):
